@@ -117,7 +117,7 @@ def obligations(cx):
         if not isinstance(xs, Seq): raise Unsupported("set(%r)" % (xs,))
         nd = app('n_distinct', xs.n)
         ex.assume(band(nd >= 0, nd <= xs.n), 'set(): number of distinct elements')
-        return Seq(nd, lambda i: Opaque('set element'), tag=('set',))
+        return Seq(nd, lambda i: app('set.element', lift(i), xs.n), tag=('set',))
     ctr2 = {'fit': fit_contract, 'PervaporationFunction.__call__': call_contract, 'set()': set_contract}
     for iz, forced, CI in [(a_, b_, c_) for a_ in (False, True) for b_ in (False, True) for c_ in (0, 1)]:
         if True:
@@ -276,7 +276,28 @@ def obligations(cx):
             cx.ob("function.n%d.m%d.times-constant" % (n, m), r.pc, eq(w, c * v), function='PervaporationFunction.__mul__', statement="(f*c)(x,t) = c f(x,t)")
             cx.ob("function.n%d.m%d.shape" % (n, m), [], blit(len(f.f['a'].items) == n and len(f.f['b'].items) == m + 1 and not r.ex.ext_writes), kind='paths', function='PervaporationFunction.from_array')
     cx.bounded.append(dict(function='PervaporationFunction.from_array/__call__/__mul__', bound="all %d shapes with n, m <= %d" % ((maxo + 1) ** 2, maxo),
-                           reason="coefficient lists are sliced and summed: unrolled per shape (complete for the orders find_best_fit tries by default, <= 4)"))
+                           reason="coefficient lists are sliced and summed: unrolled per shape (complete for the orders find_best_fit tries by default, <= 4); __call__ is additionally proved for lists of arbitrary length (function.generic.*), from_array's slicing stays per shape"))
+    # __call__ and __mul__ for coefficient lists of ARBITRARY length (builtin sum() by contract; generic summands)
+    from ..symex import Seq as _Seq
+    la, lb, jg = var('la', 'I'), var('lb', 'I'), var('jg', 'I')
+    fobj = Obj('PervaporationFunction', dict(n=var('n', 'I'), m=var('m', 'I'), alpha=var('alpha'), a=_Seq(la, lambda i: app('a', lift(i)), tag=('a',), owner='external'),
+                                             b=_Seq(lb, lambda i: app('b', lift(i)), tag=('b',), owner='external')), owner='external')
+    def rung(ex):
+        v = ex.call_function(src.find('PervaporationFunction.__call__'), [x, t], {}, self_obj=fobj, inline=True)
+        return v, list(getattr(ex, 'sums', []))
+    rg = only_return(cx.explore(rung, pre=[t > 0, x > 0, la >= 1, lb >= 1]), 'PervaporationFunction.__call__ (generic)')
+    vg, sums = rg.value
+    fnq = 'PervaporationFunction.__call__'
+    cx.ob("function.generic.two-sums", [], blit(len(sums) == 2 and isinstance(vg, T)), kind='paths', function=fnq, statement="the body takes exactly two sums over lists built from a and b")
+    if len(sums) == 2 and isinstance(vg, T):
+        (Sa, qa), (Sb, qb) = sums
+        cx.ob("function.generic.a.length", rg.pc, eq(lift(qa.n), la), function=fnq)
+        cx.ob("function.generic.b.length", rg.pc, eq(lift(qb.n), lb), function=fnq)
+        cx.ob("function.generic.a.summand", rg.pc + [jg >= 0, jg < la], eq(qa.fn(jg), app('a', jg) * exp(log(x) * (jg + 1))), function=fnq, statement="summand j of the first sum is a[j] x^(j+1)")
+        cx.ob("function.generic.b.summand", rg.pc + [jg >= 0, jg < lb], eq(qb.fn(jg), app('b', jg) * exp(log(x) * jg)), function=fnq, statement="summand j of the second sum is b[j] x^j")
+        cx.ob("function.generic.closed-form", rg.pc, eq(vg, var('alpha') * exp(Sa - Sb / t)), function=fnq, statement="f(x,t) = alpha exp(sum_a - sum_b / t) for coefficient lists of arbitrary length")
+        cx.must_fail("function.generic.b.summand", rg.pc + [jg >= 0, jg < lb], eq(qb.fn(jg), app('b', jg) * exp(log(x) * (jg + 1))))
+    cx.assume_note("assumed contract of the builtin sum(iterable): the sum of its elements; x^j is exp(j log x) for x > 0 in the generic-length closed form of PervaporationFunction.__call__ (x = 0 is covered by the per-shape unrolling)")
     cx.assume_note("assumed contract of scipy.optimize.minimize: terminates, deterministic function of (objective, x0, method), does not modify its inputs")
     cx.assume_note("determinism of fit/find_best_fit/fit_vle = frame conditions (proved) + purity of the optimiser (assumed): equal data contents give identical coefficients")
     cx.assume_note("induction over the tried candidates (base: first-iteration obligations; step: generic iteration) is the standard loop rule; the induction principle is trusted")
